@@ -441,3 +441,273 @@ def eval_get_spec_hashes(ctx):
         except (Raised, Unsupported) as exc:
             out[flag] = f"<{exc}>"
     return out, fn
+
+
+# --------------------------------------------------------------------------- cli.main (the group callback)
+class PathTok(str):
+    """A symbolic pathlib.Path: a string token with joinpath/parent/mkdir modelled by hooks."""
+
+
+def eval_cli_main(ctx, found=True, flag_backend=None, flag_no_color=None, config=None, env=None):
+    """Evaluate gwf.cli:main on symbolic inputs; every external effect is a recorded event.
+
+    Returns (result dict, None) or (None, reason)."""
+    from ..symeval import _join
+    import posixpath
+    idx = ctx.index
+    main = idx.func("gwf.cli:main")
+    events = []
+    config = dict(config or {})
+    env = dict(env or {})
+    defaults = dict(ctx.ev.eval_global("gwf.conf", "CONFIG_DEFAULTS"))
+    from collections import ChainMap
+    cfg = ChainMap(config, defaults)
+    res = {"events": events, "mkdir": [], "config_path": None, "colour_disabled": False, "context": None, "init": None, "prompt": False}
+
+    def h_find(path_spec="workflow.py:gwf"):
+        events.append(("find_workflow", path_spec))
+        if not found:
+            raise Raised("FileNotFoundError", "no workflow file")
+        return (PathTok(PROJ + "/workflow.py"), "gwf")
+
+    def h_join(recv, *parts):
+        return PathTok(_join(str(recv), *[str(p) for p in parts]))
+
+    def h_mkdir(recv, *a, **k):
+        res["mkdir"].append(str(recv))
+        events.append(("mkdir", str(recv)))
+
+    def h_load(path):
+        res["config_path"] = str(path)
+        events.append(("config.load", str(path)))
+        return cfg
+
+    def h_confirm(*a, **k):
+        res["prompt"] = True
+        events.append(("prompt",))
+        return True
+
+    def h_init(d):
+        res["init"] = str(d)
+        events.append(("init", str(d)))
+
+    hooks = {
+        "gwf.utils.find_workflow": h_find, "gwf.cli.find_workflow": h_find,
+        "attr:joinpath": h_join, "attr:mkdir": h_mkdir,
+        "getattr:parent": lambda o: PathTok(posixpath.dirname(str(o))),
+        "pathlib.Path.cwd": lambda: PathTok(tok("CWD")),
+        "gwf.conf.FileConfig.load": h_load,
+        "gwf.cli.configure_logging": lambda *a, **k: events.append(("logging", a, k)),
+        "gwf.backends.base.guess_backend": lambda: (10, tok("GUESSED")), "gwf.backends.guess_backend": lambda: (10, tok("GUESSED")),
+        "os.getenv": lambda k, d=None: env.get(k, d), "os.environ.get": lambda k, d=None: env.get(k, d),
+        "click.confirm": h_confirm, "gwf.cli.init": h_init,
+    }
+    interp = PureInterp(ctx, hooks=hooks)
+    cobj = Obj("click_ctx", obj={})
+    try:
+        interp.call(main, (cobj, "workflow.py:gwf", flag_backend, "info", flag_no_color))
+    except (Raised, Unsupported) as exc:
+        return None, f"{type(exc).__name__}: {exc}"
+    for e in interp.events:
+        if e[0] == "setattr" and e[1].endswith("isatty"):
+            res["colour_disabled"] = True
+    o = cobj.obj
+    if isinstance(o, Obj):
+        res["context"] = {k: (str(v) if isinstance(v, str) else v) for k, v in o._kwargs.items()}
+        if o._args:
+            res["context"]["_positional"] = o._args
+    return res, None
+
+
+def cli_main_location_witness(ctx):
+    """C19/C05: everything the group callback creates or loads is derived from the found workflow file."""
+    diffs, n = [], 0
+    for found, base in ((True, PROJ), (False, tok("CWD"))):
+        res, err = eval_cli_main(ctx, found=found)
+        if err:
+            return n, diffs, err
+        n += 1
+        want_mk = {base + "/.gwf", base + "/.gwf/logs"}
+        if set(res["mkdir"]) != want_mk:
+            diffs.append(f"workflow {'found' if found else 'not found'}: the group callback creates {sorted(res['mkdir'])}, expected {sorted(want_mk)}")
+        elif res["mkdir"].index(base + "/.gwf") > res["mkdir"].index(base + "/.gwf/logs"):
+            diffs.append("the logs directory is created before the state directory (mkdir without parents fails)")
+        if res["config_path"] != base + "/.gwfconf.json":
+            diffs.append(f"workflow {'found' if found else 'not found'}: configuration loaded from {res['config_path']}, expected {base}/.gwfconf.json")
+        c = res["context"] or {}
+        if c.get("working_dir") != base or c.get("workflow_file") != base + "/workflow.py" or c.get("workflow_obj") != "gwf":
+            diffs.append(f"workflow {'found' if found else 'not found'}: Context(working_dir={c.get('working_dir')}, workflow_file={c.get('workflow_file')}, "
+                         f"workflow_obj={c.get('workflow_obj')}), expected the workflow file's directory {base}")
+        if found and (res["prompt"] or res["init"]):
+            diffs.append("the group callback prompts / initialises a project although a workflow file was found")
+        if not found and (not res["prompt"] or res["init"] != base):
+            diffs.append("without a workflow file the callback must prompt and initialise the invoking directory only")
+        ev = [e[0] for e in res["events"]]
+        if not found and "prompt" in ev and "init" in ev and ev.index("prompt") > ev.index("init"):
+            diffs.append("the project skeleton is written before the prompt is confirmed")
+    return n, diffs, None
+
+
+def cli_main_precedence_witness(ctx):
+    """C20: backend and colour are decided flag > project configuration > default, over the full finite table."""
+    diffs, n = [], 0
+    for fb in (None, "F"):
+        for cb in (None, "C"):
+            cfg = {} if cb is None else {"backend": cb}
+            res, err = eval_cli_main(ctx, flag_backend=fb, config=cfg)
+            if err:
+                return n, diffs, err
+            n += 1
+            want = fb or cb or tok("GUESSED")
+            got = (res["context"] or {}).get("backend")
+            if got != want:
+                diffs.append(f"--backend={fb}, config backend={cb}: the commands get backend {got}, expected {want}")
+            if (res["context"] or {}).get("config") is None:
+                diffs.append("the Context does not carry the loaded configuration")
+    for fc in (None, True, False):
+        for cc in (None, True, False):
+            for env in ({}, {"NO_COLOR": "1"}):
+                cfg = {} if cc is None else {"no_color": cc}
+                res, err = eval_cli_main(ctx, flag_no_color=fc, config=cfg, env=env)
+                if err:
+                    return n, diffs, err
+                n += 1
+                want = fc if fc is not None else (cc if cc is not None else bool(env))
+                if bool(res["colour_disabled"]) != bool(want):
+                    diffs.append(f"--no-color flag={fc}, config no_color={cc}, NO_COLOR={'set' if env else 'unset'}: colours "
+                                 f"{'disabled' if res['colour_disabled'] else 'enabled'}, expected {'disabled' if want else 'enabled'}")
+    return n, diffs, None
+
+
+def create_backend_witness(ctx):
+    """C20: create_backend(name, wd, config) constructs the selected factory with working_dir and exactly config.get_namespace('backend.<name>')."""
+    from ..consteval import FuncRef
+    cb = ctx.index.func("gwf.backends.base:create_backend")
+    diffs, n = [], 0
+    for sel, other in (("slurm", "local"), ("local", "slurm")):
+        seen = {}
+
+        def h_ns(recv, prefix):
+            seen["prefix"] = prefix
+            return {"opt_of_" + prefix: "V"}
+
+        def mk(name):
+            def fac(*a, **k):
+                seen["built"] = (name, a, dict(k))
+                return Obj("backend:" + name)
+            return fac
+
+        hooks = {"attr:get_namespace": h_ns, "F_" + sel: mk(sel), "F_" + other: mk(other),
+                 "gwf.backends.base.discover_backends": lambda: {sel: (FuncRef("F_" + sel), 10), other: (FuncRef("F_" + other), 20)}}
+        interp = PureInterp(ctx, hooks=hooks)
+        try:
+            out = interp.call(cb, (sel, PROJ, Obj("config")))
+        except (Raised, Unsupported) as exc:
+            return n, diffs, f"{type(exc).__name__}: {exc}"
+        n += 1
+        want = (sel, (), {"working_dir": PROJ, "opt_of_backend." + sel: "V"})
+        got = seen.get("built")
+        if got is not None and got[1] == (PROJ,) and "working_dir" not in got[2]:
+            got = (got[0], (), dict(got[2], working_dir=PROJ))
+        if got != want or not (isinstance(out, Obj) and out._name == "backend:" + sel):
+            diffs.append(f"create_backend({sel!r}, ...) builds {got} from namespace {seen.get('prefix')!r}; expected factory {sel} with working_dir and exactly the "
+                         f"'backend.{sel}' settings as keyword arguments")
+    return n, diffs, None
+
+
+# --------------------------------------------------------------------------- `gwf cancel`
+class GraphTok(list):
+    """A symbolic Graph: iterating it yields its targets (as Graph.__iter__ does)."""
+
+
+def eval_cancel_command(ctx, patterns=(), force=False, fail=None):
+    """Evaluate the cancel command; fail = {target name: exception kind} raised by backend.cancel."""
+    idx = ctx.index
+    cc = idx.func("gwf.plugins.cancel:cancel")
+    events = []
+    all_targets = [Obj("target", name=n) for n in ("A", "B", "C")]
+    selected = [all_targets[0], all_targets[2]]
+    graph = GraphTok(all_targets)
+    fail = dict(fail or {})
+
+    def h_cancel(recv, target):
+        events.append(("cancel", target.name))
+        if target.name in fail:
+            raise Raised(fail[target.name], "cancel failed")
+
+    def h_filter(g, pats):
+        events.append(("filter_names", g is graph, tuple(pats)))
+        return list(selected)
+
+    def h_backend(*a, **k):
+        events.append(("create_backend",))
+        return Obj("backend")
+
+    hooks = {
+        "click.confirm": lambda *a, **k: events.append(("prompt", k.get("abort"))),
+        "gwf.workflow.Workflow.from_context": lambda c: Obj("workflow", targets={t.name: t for t in all_targets}),
+        "gwf.Workflow.from_context": lambda c: Obj("workflow", targets={t.name: t for t in all_targets}),
+        "gwf.core.Graph.from_targets": lambda *a, **k: graph,
+        "gwf.filtering.filter_names": h_filter,
+        "gwf.backends.base.create_backend": h_backend, "gwf.backends.create_backend": h_backend,
+        "attr:cancel": h_cancel,
+        "with_exit": lambda v: events.append(("backend.close",)) if v._name == "backend" else None,
+        "click.echo": lambda *a, **k: events.append(("echo", a[0] if a else "")),
+    }
+    interp = PureInterp(ctx, hooks=hooks)
+    out = {"events": events, "raised": None}
+    try:
+        interp.call(cc, (Obj("ctx", backend="B", working_dir=PROJ, config={}), tuple(patterns), force))
+    except Raised as exc:
+        out["raised"] = exc.kind
+    except Unsupported as exc:
+        return None, f"Unsupported: {exc}"
+    return out, None
+
+
+def cancel_command_witness(ctx):
+    """C17: selection, prompt and failure independence of `gwf cancel` on a finite witness table."""
+    diffs, n = [], 0
+    for patterns, force in ((("A*",), False), (("A*",), True), ((), True), ((), False)):
+        out, err = eval_cancel_command(ctx, patterns, force)
+        if err:
+            return n, diffs, err
+        n += 1
+        ev = out["events"]
+        kinds = [e[0] for e in ev]
+        cancelled = [e[1] for e in ev if e[0] == "cancel"]
+        want = ["A", "C"] if patterns else ["A", "B", "C"]
+        label = f"gwf cancel {' '.join(patterns)}{' --force' if force else ''}"
+        if out["raised"]:
+            diffs.append(f"`{label}` ends with {out['raised']}")
+            continue
+        if cancelled != want:
+            diffs.append(f"`{label}`: backend.cancel called for {cancelled}, expected {want} ({'the targets filter_names selects' if patterns else 'every target of the workflow'})")
+        if patterns and ("filter_names", True, tuple(patterns)) not in ev:
+            diffs.append(f"`{label}`: the patterns are not resolved with filter_names(graph, patterns)")
+        need_prompt = not patterns and not force
+        if need_prompt and (("prompt", True) not in ev or kinds.index("prompt") > kinds.index("create_backend")):
+            diffs.append(f"`{label}`: cancelling everything must ask for confirmation (abort on decline) before the backend is created")
+        if not need_prompt and "prompt" in kinds:
+            diffs.append(f"`{label}` asks for confirmation although targets were named or --force was given")
+        if "backend.close" not in kinds:
+            diffs.append(f"`{label}`: the backend is not closed (tracked-job state not saved)")
+    for kind in ("TargetError", "BackendError"):
+        for pos in ("A", "B", "C"):
+            out, err = eval_cancel_command(ctx, (), True, fail={pos: kind})
+            if err:
+                return n, diffs, err
+            n += 1
+            cancelled = [e[1] for e in out["events"] if e[0] == "cancel"]
+            if out["raised"] or cancelled != ["A", "B", "C"]:
+                diffs.append(f"{kind} while cancelling {pos}: the command {'ends with ' + out['raised'] if out['raised'] else 'continues'}; cancel was attempted for {cancelled}, "
+                             "expected all of A, B, C (one failure must not stop the remaining cancellations)")
+            elif not any(e[0] == "echo" and pos in str(e[1]) and "could not" in str(e[1]).lower() for e in out["events"]):
+                diffs.append(f"{kind} while cancelling {pos}: the failure is not reported to the user")
+    out, err = eval_cancel_command(ctx, (), True, fail={"A": "UnsupportedOperationError"})
+    if err:
+        return n, diffs, err
+    n += 1
+    if out["raised"] not in ("Abort",):
+        diffs.append(f"a backend that cannot cancel at all: the command ends with {out['raised']}, expected click.Abort")
+    return n, diffs, None
